@@ -93,9 +93,9 @@ def value_plan(rng: random.Random, domain: str, threshold: int, count: int) -> t
             classes[name] = f"result:size~{n - threshold:+d}"
         else:                     # exception: builtin / custom, several args, small and large
             n = sizes[(k // 4) % len(sizes)]
-            etype = ["ValueError", "VerifError", "VerifKeyError", "RuntimeError"][(k // 4) % 4]
+            etype = ["ValueError", "VerifError", "RetryError", "VerifKeyError", "RuntimeError"][(k // 4) % 5]
             args = [["m" * n], [k, "two", n], [], [{"detail": "z" * n}]][(k // 8) % 4]
-            if domain == "json" and args and isinstance(args[0], dict):
+            if (domain == "json" or etype == "RetryError") and args and isinstance(args[0], dict):
                 args = ["z" * n, 7]
             outcomes[name], values[name] = ["fail"], [[etype, args]]
             classes[name] = f"exception:{etype}:size~{n - threshold:+d}:nargs={len(args)}"
